@@ -79,6 +79,35 @@ Proof.
 Qed.
 Print Assumptions C04_requests_only_from_recv.
 
+(* The consumer's request budget, for every run of the receiver (whatever is delivered, in whatever order, however the calls
+   and polls fall): one step sends a source at most one message, and only a poll that came back empty (a wait interval has
+   passed, or the set is complete: the prefetch), an out-of-band message or destroy() send anything - starting a recv() call
+   and reading messages never do.  So the messages pushed to one source number at most the steps of those kinds: a consumer
+   that finds its frames queued asks once per frame taken, a waiting one once per interval.  With C04_credit_bound (publishes
+   to a tracked client <= requests received from it) this bounds what is in flight towards a consumer that is slower than its
+   producer, at any length of the run. *)
+From OF Require Import Proto.Receiver_Budget.
+Theorem C04_request_budget :
+  forall v i its st, (pushes_to i (snd (rrun v st its)) <= spent its)%nat.
+Proof. exact request_budget. Qed.
+Print Assumptions C04_request_budget.
+
+Theorem C04_one_message_per_source_per_step :
+  forall v st it st' o, rstep v st it = (st', o) ->
+    NoDup (push_idx o) /\ (spends it = false -> push_idx o = []).
+Proof. exact rstep_push_budget. Qed.
+Print Assumptions C04_one_message_per_source_per_step.
+
+(* the bound is met: a call, an empty poll (the consumer asks), a delivery, a poll that reads it (nothing sent), an empty poll
+   (the set is complete: the prefetch goes out with the return) - two messages to the source, two spending steps of five *)
+Example C04_request_budget_tight :
+  let its := [ICall None None 0; IPoll [] 0;
+              IDeliver 0 {| w_wtopic := [47; 109; 47]; w_sid := 10; w_mid := 0; w_topics := [[109]]; w_bal := 0; w_pay := 1 |};
+              IPoll [0%nat] 100000000; IPoll [] 100000000] in
+  let o := snd (rrun Repaired (init_receiver 7 false false [{| sc_eph := 0; sc_mode := SubAll; sc_uid := 0 |}]) its) in
+  (pushes_to 0 o, spent its, existsb (fun x => match x with ORet _ _ _ => true | _ => false end) o) = (2%nat, 2%nat, true).
+Proof. vm_compute. reflexivity. Qed.
+
 (* Non-vacuity: a publisher with one synchronized client publishes id 0 on its request, then a second
    send() waits (no publish) until the client asks again. *)
 Theorem C04_nonvacuous :
